@@ -252,6 +252,26 @@ def hydrogen_bookkeeping(m0, hseed, rec):
             rec.fail('explicit-h', f'{label}: attaching a hydrogen atom to atom {n} changed its implicit count {before} -> '
                                    f'{m.atom(n).implicit_hydrogens}')
             return
+    # several structural edits in one transaction: hydrogens are recalculated at the end for every touched atom
+    t = m.copy()
+    nums = list(t)
+    bl = [(x, y) for x, y, b in t.bonds() if b.order != 8]
+    free = [(x, y) for x in nums for y in nums if x < y and not t.has_bond(x, y)
+            and t.atom(x).implicit_hydrogens and t.atom(y).implicit_hydrogens]
+    if bl and free:
+        x, y = free[rnd.randrange(len(free))]
+        cand = [e for e in bl if not set(e) & {x, y}] or bl
+        p, q = cand[rnd.randrange(len(cand))]
+        try:
+            with t:
+                t.add_bond(x, y, 1)
+                t.delete_bond(p, q)
+        except Exception as e:
+            rec.count(f'hydrogens:transaction-refused:{type(e).__name__}')
+        else:
+            if not rederive(t, rec, f'{label} after add_bond({x},{y}) + delete_bond({p},{q}) in one transaction', 'transaction-h'):
+                return
+            rec.count('hydrogens:transactions')
     total = sum(a.implicit_hydrogens + (a.atomic_number == 1) for _, a in m.atoms())
     brutto = dict(m.brutto)
     if added:
